@@ -126,6 +126,30 @@ func (r customReader) Skip(n int) error                  { return r.inner.Skip(n
 func (r customReader) ReadLen() int                      { return r.inner.ReadLen() }
 func (r customReader) Release(e error) error             { return r.inner.Release(e) }
 
+// lenientReader is a caller-implemented bufiox.Reader in the style of network buffers: a request for zero or fewer bytes
+// is a no-op that succeeds (the interface says nothing about such requests).  Code sitting on top of it cannot rely on
+// the reader to reject a negative size for it.
+type lenientReader struct{ customReader }
+
+func (r lenientReader) Skip(n int) error {
+	if n <= 0 {
+		return nil
+	}
+	return r.inner.Skip(n)
+}
+func (r lenientReader) Next(n int) ([]byte, error) {
+	if n <= 0 {
+		return []byte{}, nil
+	}
+	return r.inner.Next(n)
+}
+func (r lenientReader) Peek(n int) ([]byte, error) {
+	if n <= 0 {
+		return []byte{}, nil
+	}
+	return r.inner.Peek(n)
+}
+
 // reuseSkipper implements thrift.SkipDecoderIface over a byte slice but hands out the SAME scratch buffer on
 // every SkipN (the interface documentation allows it: "It's safe to reuse buffer for next SkipN call").
 type reuseSkipper struct {
